@@ -10,6 +10,12 @@
 (*                    dispatcher ({id, cmd, arg}; tok = 0 <=> cmd == NULL, *)
 (*                    the id of an emptied slot stays behind), def/err     *)
 (*                    mirror dispatch._def/_err.                           *)
+(*                    snap mirrors a snapshot handle on the command array  *)
+(*                    (mpt_array_clone of the public _d member): st =      *)
+(*                    "none" (no handle), "same" (shares the dispatcher's  *)
+(*                    buffer: every write is seen by both), "own" (the     *)
+(*                    last reference to a buffer the dispatcher left       *)
+(*                    behind: kind/slots of that buffer).                  *)
 (* Ids are uintptr_t values: tuples <<l0,l1,l2,l3>> of 16-bit limbs, l0    *)
 (* least significant (TLC integers are 32 bit, command hashes are not).    *)
 (* A token identifies one registration (the handler's arg pointer); every  *)
@@ -25,10 +31,11 @@ CONSTANTS SmallIds,   \* small integers used as ids (also as first message byte)
           HRs         \* handler results offered: <<r, clear>>, r = flags or -1
 
 VARIABLES kind, slots, def, err,         \* Tier 2
+          snap,                          \* Tier 2: a second handle on the table's buffer
           tab, fin, ever,                \* Tier 1
           ntok, obs
-vars  == <<kind, slots, def, err, tab, fin, ever, ntok, obs>>
-state == <<kind, slots, def, err, tab, fin, ever, ntok>>
+vars  == <<kind, slots, def, err, snap, tab, fin, ever, ntok, obs>>
+state == <<kind, slots, def, err, snap, tab, fin, ever, ntok>>
 
 ---------------------------------------------------------------------------
 (* ids on limbs *)
@@ -95,6 +102,19 @@ TableFrom(t, top) ==
   ELSE LET ids == {id \in DOMAIN tab' : tab'[id] = t} IN
        (IF ids = {} THEN <<>> ELSE <<[tok |-> t, id |-> CHOOSE id \in ids : TRUE]>>) \o TableFrom(t + 1, top)
 
+\* snapshot handle
+NoSnap        == [st |-> "none", kind |-> "none", slots |-> <<>>]
+SameSnap      == [st |-> "same", kind |-> "none", slots |-> <<>>]
+OwnSnap(k, s) == [st |-> "own", kind |-> k, slots |-> s]
+Shared        == snap.st = "same"
+\* the snapshot is left behind with the buffer as it is (k, s) when the dispatcher moves on
+Detach(k, s)  == snap' = IF Shared THEN OwnSnap(k, s) ELSE snap
+\* registrations whose end-of-life call is due when the snapshot lets go of a typed buffer
+Held          == IF snap.st = "own" /\ snap.kind = "cmd"
+                 THEN {snap.slots[i].tok : i \in {j \in DOMAIN snap.slots : snap.slots[j].tok # 0}} ELSE {}
+\* design: a shared typed buffer (created no-copy) cannot grow; an empty one is replaced
+AppendRefused == Shared /\ kind = "cmd" /\ Empty = {} /\ slots # <<>>
+
 Call(t, id, m)  == [tok |-> t, fin |-> 0, id |-> id, msg |-> m]
 FinCall(t)      == [tok |-> t, fin |-> 1, id |-> Zero, msg |-> 0]
 
@@ -105,21 +125,24 @@ Answer(a, arg, ret, calls) ==
 ---------------------------------------------------------------------------
 (* mpt_command_set(&disp->_d, id, handler | NULL, tok): replace, add, delete *)
 PlaceNew(id, t) ==      \* Tier 2: where a new entry goes
-  IF kind = "none" THEN /\ kind' = "cmd" /\ slots' = <<[id |-> id, tok |-> t]>>
+  IF kind = "none" THEN /\ kind' = "cmd" /\ slots' = <<[id |-> id, tok |-> t]>> /\ UNCHANGED snap
   ELSE /\ kind' = kind
-       /\ IF Empty # {} THEN slots' = [slots EXCEPT ![MinOf(Empty)] = [id |-> id, tok |-> t]]
-          ELSE slots' = Append(slots, [id |-> id, tok |-> t])
+       /\ IF Empty # {} THEN slots' = [slots EXCEPT ![MinOf(Empty)] = [id |-> id, tok |-> t]] /\ UNCHANGED snap
+          ELSE slots' = Append(slots, [id |-> id, tok |-> t]) /\ Detach(kind, slots)   \* grows: not in shared storage
 
 CmdSet(id, new) ==
   LET t == IF new = 1 THEN NewTok ELSE 0
       arg == [id |-> id, new |-> new, tok |-> NewTok] IN
   /\ ntok' = NewTok /\ UNCHANGED <<def, err>>
   /\ IF Registered(id)
-     THEN /\ slots' = [slots EXCEPT ![SlotOf(id)].tok = t] /\ kind' = kind
+     THEN /\ slots' = [slots EXCEPT ![SlotOf(id)].tok = t] /\ kind' = kind /\ UNCHANGED snap
           /\ tab' = IF new = 1 THEN TabSet(id, t) ELSE TabDel(id)
           /\ fin' = FinUp({tab[id]}) @@ (NewTok :> 0)
           /\ ever' = IF new = 1 THEN ever \cup {t} ELSE ever
           /\ Answer("cmdset", arg, "ok", <<FinCall(tab[id])>>)
+     ELSE IF AppendRefused
+     THEN /\ UNCHANGED <<kind, slots, snap, tab, ever>> /\ fin' = FinNew
+          /\ Answer("cmdset", arg, "refused", <<>>)
      ELSE /\ PlaceNew(id, t)
           /\ tab' = IF new = 1 THEN TabSet(id, t) ELSE tab
           /\ fin' = FinNew
@@ -130,7 +153,10 @@ CmdSet(id, new) ==
 SetCore(a, arg, id) ==
   /\ ntok' = NewTok /\ UNCHANGED <<def, err>>
   /\ IF Registered(id)
-     THEN /\ UNCHANGED <<kind, slots, tab, ever>> /\ fin' = FinNew
+     THEN /\ UNCHANGED <<kind, slots, snap, tab, ever>> /\ fin' = FinNew
+          /\ Answer(a, arg, "refused", <<>>)
+     ELSE IF AppendRefused
+     THEN /\ UNCHANGED <<kind, slots, snap, tab, ever>> /\ fin' = FinNew
           /\ Answer(a, arg, "refused", <<>>)
      ELSE /\ PlaceNew(id, NewTok)
           /\ tab' = TabSet(id, NewTok) /\ fin' = FinNew /\ ever' = ever \cup {NewTok}
@@ -142,7 +168,7 @@ SetText(t) == SetCore("settext", [text |-> t, tok |-> NewTok], Djb2(t))
 (* mpt_dispatch_set(disp, id, NULL, NULL): unregister *)
 Clear(id) ==
   LET arg == [id |-> id] IN
-  /\ UNCHANGED <<def, err, ntok, kind, ever>>
+  /\ UNCHANGED <<def, err, ntok, kind, ever, snap>>
   /\ IF Registered(id)
      THEN /\ slots' = [slots EXCEPT ![SlotOf(id)].tok = 0]
           /\ tab' = TabDel(id) /\ fin' = FinUp({tab[id]})
@@ -155,14 +181,14 @@ SetError ==
   LET arg == [tok |-> NewTok] IN
   /\ ntok' = NewTok /\ err' = NewTok /\ ever' = ever \cup {NewTok}
   /\ fin' = (IF err > 0 THEN FinUp({err}) ELSE fin) @@ (NewTok :> 0)
-  /\ UNCHANGED <<kind, slots, def, tab>>
+  /\ UNCHANGED <<kind, slots, def, tab, snap>>
   /\ Answer("seterror", arg, "ok", IF err > 0 THEN <<FinCall(err)>> ELSE <<>>)
 
 (* choose the default id explicitly (mpt++ dispatch::set_default): only a *)
 (* registered id can become the default                                   *)
 SetDefault(id) ==
   LET arg == [id |-> id] IN
-  /\ UNCHANGED <<kind, slots, err, tab, fin, ever, ntok>>
+  /\ UNCHANGED <<kind, slots, err, snap, tab, fin, ever, ntok>>
   /\ IF Registered(id) THEN def' = id /\ Answer("setdefault", arg, "ok", <<>>)
      ELSE UNCHANGED def /\ Answer("setdefault", arg, "refused", <<>>)
 
@@ -181,13 +207,13 @@ Reserve(w, id, ok) ==
   /\ ntok' = NewTok /\ UNCHANGED <<def, err>>
   /\ IF ~ok
      THEN /\ slots' = Compact /\ kind' = kind
-          /\ UNCHANGED <<tab, ever>> /\ fin' = FinNew
+          /\ UNCHANGED <<tab, ever, snap>> /\ fin' = FinNew
           /\ obs' = [a |-> "reserve", arg |-> arg,
                      exp |-> [ret |-> "refused", calls |-> <<>>, def |-> def, table |-> TableFrom(1, ntok')]]
      ELSE /\ id \notin LiveIds /\ id # Zero /\ ~Lt(MaxFor(w), id)
           /\ IF kind = "none"
-             THEN slots' = <<[id |-> id, tok |-> NewTok]>> \o [i \in 1..7 |-> [id |-> Zero, tok |-> 0]]
-             ELSE slots' = Append(Compact, [id |-> id, tok |-> NewTok])
+             THEN slots' = <<[id |-> id, tok |-> NewTok]>> \o [i \in 1..7 |-> [id |-> Zero, tok |-> 0]] /\ UNCHANGED snap
+             ELSE slots' = Append(Compact, [id |-> id, tok |-> NewTok]) /\ Detach(kind, Compact)
           /\ kind' = "raw"
           /\ tab' = TabSet(id, NewTok) /\ fin' = FinNew /\ ever' = ever \cup {NewTok}
           /\ obs' = [a |-> "reserve", arg |-> arg,
@@ -200,22 +226,42 @@ FinCalls(s) == IF s = <<>> THEN <<>>
 Fini ==
   /\ kind' = "none" /\ slots' = <<>> /\ def' = Zero /\ err' = 0
   /\ tab' = << >> /\ UNCHANGED <<ntok, ever>>
+  /\ Detach(kind, <<>>)                 \* the table is cleared in place before the reference goes
   /\ fin' = FinUp({slots[i].tok : i \in Live} \cup (IF err > 0 THEN {err} ELSE {}))
   /\ Answer("fini", [x |-> 0], "ok", FinCalls(slots) \o (IF err > 0 THEN <<FinCall(err)>> ELSE <<>>))
 
 (* mpt_command_clear(&disp->_d): all registrations notified, buffer kept *)
 ClearAll ==
-  /\ slots' = <<>> /\ tab' = << >> /\ UNCHANGED <<kind, def, err, ntok, ever>>
+  /\ slots' = <<>> /\ tab' = << >> /\ UNCHANGED <<kind, def, err, ntok, ever, snap>>
   /\ fin' = FinUp({slots[i].tok : i \in Live})
   /\ Answer("clearall", [x |-> 0], "ok", FinCalls(slots))
 (* dropping the table's buffer without clearing it first (mpt_array_clone  *)
 (* with no source): a buffer created by mpt_command_set carries the        *)
 (* command traits, whose finaliser notifies every live entry               *)
+\* ... while a snapshot shares the buffer nothing is released: the registrations stay with
+\* the snapshot (Held) until that lets go
 Drop ==
   /\ kind # "raw"
   /\ kind' = "none" /\ slots' = <<>> /\ tab' = << >> /\ UNCHANGED <<def, err, ntok, ever>>
-  /\ fin' = FinUp({slots[i].tok : i \in Live})
-  /\ Answer("drop", [x |-> 0], "ok", FinCalls(slots))
+  /\ Detach(kind, slots)
+  /\ fin' = IF Shared THEN fin ELSE FinUp({slots[i].tok : i \in Live})
+  /\ Answer("drop", [x |-> 0], "ok", IF Shared THEN <<>> ELSE FinCalls(slots))
+
+(* a snapshot handle on the table: mpt_array_clone(&snapshot, &disp->_d)   *)
+(* takes a second reference to the buffer in place (nothing to take from   *)
+(* an absent table), mpt_array_clone(&snapshot, 0) releases it: the last   *)
+(* reference to a typed buffer gone notifies what is live in it.           *)
+Snapshot ==
+  /\ snap.st = "none"
+  /\ UNCHANGED <<kind, slots, def, err, tab, fin, ever, ntok>>
+  /\ IF kind = "none" THEN UNCHANGED snap /\ Answer("snapshot", [x |-> 0], "none", <<>>)
+     ELSE snap' = SameSnap /\ Answer("snapshot", [x |-> 0], "ok", <<>>)
+DropSnapshot ==
+  /\ UNCHANGED <<kind, slots, def, err, tab, ever, ntok>>
+  /\ snap' = NoSnap
+  /\ fin' = FinUp(Held)
+  /\ Answer("dropsnapshot", [x |-> 0], IF snap.st = "none" THEN "none" ELSE "ok",
+            IF Held # {} THEN FinCalls(snap.slots) ELSE <<>>)
 
 ---------------------------------------------------------------------------
 (* dispatch *)
@@ -230,7 +276,7 @@ AfterEmit(a, arg, id, h, calls) ==
        /\ Answer(a, arg, (r \div 2) * 2 + (IF def' # Zero THEN 1 ELSE 0), calls)
 
 Deliver(a, arg, id, m, hr) ==
-  /\ UNCHANGED <<kind, slots, err, tab, fin, ever, ntok>>
+  /\ UNCHANGED <<kind, slots, err, snap, tab, fin, ever, ntok>>
   /\ IF Registered(id) THEN AfterEmit(a, arg, id, hr, <<Call(tab[id], id, m)>>)
      ELSE IF err > 0 THEN AfterEmit(a, arg, id, hr, <<Call(err, id, m)>>)
      ELSE IF err < 0 THEN AfterEmit(a, arg, id, Builtin(id, m), <<>>)
@@ -248,7 +294,7 @@ EmitNone(hr) ==
   LET arg == [r |-> hr[1], clear |-> hr[2]] IN
   IF def = Zero THEN UNCHANGED state /\ Answer("emitnone", arg, 0, <<>>)
   ELSE IF ~Registered(def)
-  THEN /\ def' = Zero /\ UNCHANGED <<kind, slots, err, tab, fin, ever, ntok>>
+  THEN /\ def' = Zero /\ UNCHANGED <<kind, slots, err, snap, tab, fin, ever, ntok>>
        /\ Answer("emitnone", arg, -1, <<>>)
   ELSE Deliver("emitnone", arg, def, 0, hr)
 
@@ -303,7 +349,7 @@ HashEmit(cmd, sep, payload, cuts, hr) ==
 ---------------------------------------------------------------------------
 Init ==
   /\ kind = "none" /\ slots = <<>> /\ def = Zero /\ err = -1
-  /\ tab = << >> /\ fin = << >> /\ ever = {} /\ ntok = 0
+  /\ tab = << >> /\ fin = << >> /\ ever = {} /\ ntok = 0 /\ snap = NoSnap
   /\ obs = [a |-> "init", arg |-> [x |-> 0],
             exp |-> [ret |-> "ok", calls |-> <<>>, def |-> Zero, table |-> <<>>]]
 
@@ -318,6 +364,7 @@ Next ==
   \/ SetError
   \/ \E w \in Widths : Reserve(w, ReserveId(w), ReserveOK(w))
   \/ Fini \/ ClearAll \/ Drop
+  \/ Snapshot \/ DropSnapshot
   \/ \E id \in RegIds \cup {Unreg} \cup LiveIds, hr \in HRs : EmitId(id, hr)
   \/ \E n \in SmallIds \cup {200}, hr \in HRs : EmitMsg(<<n, 7>>, hr)
   \/ \E hr \in HRs : EmitMsg(<<>>, hr) \/ EmitNone(hr)
@@ -336,6 +383,7 @@ TypeOK ==
   /\ kind \in {"none", "cmd", "raw"} /\ (kind = "none" => slots = <<>>)
   /\ DOMAIN fin = 1..ntok /\ ever \subseteq 1..ntok
   /\ err \in (-1)..ntok
+  /\ snap.st \in {"none", "same", "own"} /\ (Shared => kind # "none")
 
 \* Tier 2 implements Tier 1: the live slots are exactly the registrations,
 \* no id is live twice (this is also "reserved ids are unique among the live ones")
@@ -349,8 +397,13 @@ Refines ==
 OnceOnly == /\ \A t \in DOMAIN fin : fin[t] <= 1
             /\ \A id \in DOMAIN tab : fin[tab[id]] = 0
             /\ err > 0 => fin[err] = 0
+            /\ \A t \in Held : fin[t] = 0
 \* whoever was ever registered and is not in place any more has had exactly one
-GoneNotified == \A t \in ever : (t \notin {tab[id] : id \in DOMAIN tab} /\ t # err) => fin[t] = 1
+\* (a typed buffer the dispatcher let go of while a snapshot shared it keeps its registrations
+\* until the snapshot is released: with no snapshot left nothing is held)
+GoneNotified == \A t \in ever : (t \notin {tab[id] : id \in DOMAIN tab} /\ t # err /\ t \notin Held) => fin[t] = 1
+\* a snapshot's own typed buffer never carries a registration the dispatcher has as well
+HeldApart == Held \cap ({tab[id] : id \in DOMAIN tab} \cup {err}) = {}
 
 (* action properties *)
 \* events reach only the handler registered for the id (else the fallback), never a dead one
@@ -361,7 +414,10 @@ DeliveredRight == [][\A i \in DOMAIN obs'.exp.calls :
 \* at most one handler sees an event
 OneHandler == [][Cardinality({i \in DOMAIN obs'.exp.calls : obs'.exp.calls[i].fin = 0}) <= 1]_vars
 \* after teardown everybody ever registered has been notified exactly once
-FiniAll == [][obs'.a = "fini" => \A t \in ever : fin'[t] = 1]_vars
+\* (whatever handle on the table exists), and releasing a snapshot afterwards adds nothing
+FiniAll == [][obs'.a = "fini" => \A t \in ever \ Held : fin'[t] = 1]_vars
+\* a snapshot taken and released without the dispatcher dropping its table in between changes nothing
+SnapshotSilent == [][(obs'.a = "dropsnapshot" /\ snap.st # "own") => (obs'.exp.calls = <<>> /\ fin' = fin)]_vars
 \* a reserved id is new among the live ones and within the width's range
 ReserveUnique == [][(obs'.a = "reserve" /\ obs'.exp.ret = "ok") =>
                      (obs'.exp.id \notin LiveIds /\ obs'.exp.id # Zero /\ ~Lt(MaxFor(obs'.arg.w), obs'.exp.id))]_vars
